@@ -5,7 +5,7 @@
      pynapple/core/base_class.py  : _Base.__init__ (an EMPTY index always gets the empty time support)
    Arrays are {shape; cells} in row-major order with ABSTRACT cells V.  What a NumPy function returns is
    a parameter of every wrapper (an [npres]: an array, or anything that is not array-like - a NumPy scalar,
-   a tuple - of abstract type O): the wrapper only ever inspects the SHAPE of that result.
+   a tuple - of abstract type W): the wrapper only ever inspects the SHAPE of that result.
    np.split / np.array_split's division points and np.allclose's broadcasting rule (used by
    _check_time_equals) are transcribed from NumPy (its contract; exercised by the correspondence check).
    No proofs in this file. *)
@@ -23,7 +23,7 @@ Inductive err :=
   | ENoNap.           (* no pynapple operand (not reachable through dispatch) *)
 
 Section NpWrap.
-Variables V O : Type.
+Variables V W : Type.
 
 Record arr := mkArr { shape : list nat; cells : list V }.
 
@@ -48,8 +48,8 @@ Definition get_class (a : arr) : cls :=
 (* a time series object; [cols] is meaningful for TsdFrame only *)
 Record ts := mkTs { kls : cls; t_of : list Z; sup_of : iset; dat : arr; cols : list Z }.
 
-Inductive npres := NArr (a : arr) | NOther (o : O).
-Inductive out := OTs (r : ts) | OArr (a : arr) | OOther (o : O) | ORefused | OErr (e : err).
+Inductive npres := NArr (a : arr) | NOther (o : W).
+Inductive out := OTs (r : ts) | OArr (a : arr) | OOther (o : W) | ORefused | OErr (e : err).
 
 Definition default_cols (k : nat) : list Z := map Z.of_nat (seq 0 k).
 
@@ -244,9 +244,9 @@ Arguments mkArr {V}. Arguments shape {V}. Arguments cells {V}.
 Arguments ndim {V}. Arguments dim0 {V}. Arguments rowsize {V}. Arguments ncols {V}.
 Arguments chunk {V}. Arguments rows {V}. Arguments arr_of_rows {V}. Arguments take_rows {V}. Arguments get_class {V}.
 Arguments mkTs {V}. Arguments kls {V}. Arguments t_of {V}. Arguments sup_of {V}. Arguments dat {V}. Arguments cols {V}.
-Arguments NArr {V O}. Arguments NOther {V O}.
-Arguments OTs {V O}. Arguments OArr {V O}. Arguments OOther {V O}. Arguments ORefused {V O}. Arguments OErr {V O}.
-Arguments construct {V O}. Arguments init_out {V O}. Arguments array_ufunc {V O}. Arguments array_function {V O}.
-Arguments method_call {V O}. Arguments as_npres {V O}. Arguments mixed_ufunc {V O}.
-Arguments naps {V}. Arguments op_arr {V}. Arguments concat_tsd {V O}. Arguments cat0 {V}.
-Arguments row_pieces {V}. Arguments split_tsd {V O}. Arguments split_other {V O}.
+Arguments NArr {V W}. Arguments NOther {V W}.
+Arguments OTs {V W}. Arguments OArr {V W}. Arguments OOther {V W}. Arguments ORefused {V W}. Arguments OErr {V W}.
+Arguments construct {V W}. Arguments init_out {V W}. Arguments array_ufunc {V W}. Arguments array_function {V W}.
+Arguments method_call {V W}. Arguments as_npres {V W}. Arguments mixed_ufunc {V W}.
+Arguments naps {V}. Arguments op_arr {V}. Arguments concat_tsd {V W}. Arguments cat0 {V}.
+Arguments row_pieces {V}. Arguments split_tsd {V W}. Arguments split_other {V W}.
